@@ -26,3 +26,11 @@ claim("C16",
 claim("C20",
       "Symbolic model checking over all real inputs: clamp/leaky_clamp (functions and modules, tensor/scalar/broadcast bounds, one-sided, inverted, both inverted_output modes), the Whalley-Wilmott band rule and width (cbrt axioms), SVI, bilerp, Box-Muller and realized volatility are executed symbolically and proved equal to their documented formulas.",
       "Exact reals; leaky slope in [0,1]; Whalley-Wilmott on the open Black-Scholes domain.", "DESIGN.md §3 C20", SMT)
+claim("C08",
+      "Symbolic model checking on the whole open domain (all real log-moneyness, t>0, v>0, K>0, running max): every Black-Scholes price is executed symbolically, differentiated symbolically (d/dS through S=K e^s, d/dv, -d/dt) and z3 proves each closed-form or autogreek Greek equal to that derivative (exp add-law/congruence instances, Phi' rule); autogreek is run for real (torch.autograd.grad served by symbolic differentiation) on a smooth user pricer under every parameterisation.",
+      "Exact reals; special functions uninterpreted with listed axioms; branch boundaries (max = strike) excluded; tensors (1,),(2,).",
+      "DESIGN.md §3 C08", SMT)
+claim("C18",
+      "Symbolic model checking in an extended-real element model (nan/+inf/-inf flags with IEEE rules): at t=0 (any v>=0) and at v=0 (any t>=0), for all finite log-moneyness and K>0, every price is proved non-NaN, finite and equal to the then-certain payoff, analytic deltas equal their limits away from the strike, negative t or v is proved to raise ValueError on every path, and BlackScholes/WhalleyWilmott hedgers are proved to give finite hedges and P&L on symbolic positive paths (T<=4) including the last step.",
+      "No signed zeros, no finite overflow/underflow ('tiny' t, v excluded); autograd-based Greeks (lookback delta, American-binary gamma) are outside the extended-real model.",
+      "DESIGN.md §3 C18", "symbolic execution in an extended-real (NaN/inf-aware) term model + z3, counterexample replay")
